@@ -132,6 +132,364 @@ void add_s2(mc::Runner &R, const std::string &name, const S2Topos *T, std::vecto
   R.add(s);
 }
 
+// ------------------------------------------------------------------ S3
+// Attribute layouts: a second attribute of every type/data type/component
+// count on 4 fixed topologies, per-vertex or per-corner, with forced
+// prediction schemes, entropy coding on/off and quantization.
+const DataType kS3Types[] = {DT_INT8, DT_UINT8, DT_INT16, DT_UINT16, DT_INT32, DT_UINT32, DT_FLOAT32};
+const GeometryAttribute::Type kS3AttTypes[] = {GeometryAttribute::GENERIC, GeometryAttribute::NORMAL, GeometryAttribute::TEX_COORD,
+                                               GeometryAttribute::COLOR};
+const int kS3Preds[] = {-100, PREDICTION_NONE, PREDICTION_DIFFERENCE, MESH_PREDICTION_PARALLELOGRAM, MESH_PREDICTION_MULTI_PARALLELOGRAM,
+                        MESH_PREDICTION_CONSTRAINED_MULTI_PARALLELOGRAM, MESH_PREDICTION_TEX_COORDS_PORTABLE,
+                        MESH_PREDICTION_GEOMETRIC_NORMAL};
+
+Topo s3_topo(int i) {
+  switch (i) {
+    case 0: return {{0, 1, 2}};
+    case 1: return {{0, 1, 2}, {2, 1, 3}};
+    case 2: return {{0, 1, 2}, {0, 3, 1}, {1, 3, 2}, {2, 3, 0}};
+    default: return {{0, 1, 2}, {0, 2, 3}, {0, 3, 4}, {0, 4, 1}};
+  }
+}
+
+// value of component c of entry e for value set vs
+Bytes s3_value(DataType dt, int nc, int e, int vs) {
+  Bytes out;
+  for (int c = 0; c < nc; ++c) {
+    const int k = e * 3 + c * 7;
+    int64_t iv = 0;
+    double fv = 0;
+    int64_t lo = 0, hi = 0;
+    switch (dt) {
+      case DT_INT8: lo = -128; hi = 127; break;
+      case DT_UINT8: lo = 0; hi = 255; break;
+      case DT_INT16: lo = -32768; hi = 32767; break;
+      case DT_UINT16: lo = 0; hi = 65535; break;
+      case DT_INT32: lo = INT32_MIN; hi = INT32_MAX; break;
+      case DT_UINT32: lo = 0; hi = UINT32_MAX; break;
+      default: break;
+    }
+    switch (vs) {
+      case 0: iv = k % 11; fv = (k % 11) * 0.25 - 1.0; break;                       // small
+      case 1: {                                                                      // type extremes
+        const int64_t cyc[4] = {lo, hi, 0, lo < 0 ? -1 : 1};
+        iv = cyc[k % 4];
+        const double fc[4] = {-1e9, 1e9, 0.0, 1e-6};
+        fv = fc[k % 4];
+        break;
+      }
+      case 2: iv = 1; fv = 1.0; break;                                               // constant
+      default: {                                                                     // large but inside 2^29
+        const int64_t big = hi > (1 << 29) ? (1 << 29) : hi;
+        iv = (k % 2) ? big - (k % 5) : (lo < 0 ? -big + (k % 3) : (k % 7));
+        fv = (k % 2) ? 123456.789 : -0.001 * k;
+      }
+    }
+    switch (dt) {
+      case DT_INT8: { int8_t v = (int8_t)iv; out.push_back((uint8_t)v); break; }
+      case DT_UINT8: out.push_back((uint8_t)iv); break;
+      case DT_INT16: { int16_t v = (int16_t)iv; out.insert(out.end(), (uint8_t *)&v, (uint8_t *)&v + 2); break; }
+      case DT_UINT16: { uint16_t v = (uint16_t)iv; out.insert(out.end(), (uint8_t *)&v, (uint8_t *)&v + 2); break; }
+      case DT_INT32: { int32_t v = (int32_t)iv; out.insert(out.end(), (uint8_t *)&v, (uint8_t *)&v + 4); break; }
+      case DT_UINT32: { uint32_t v = (uint32_t)iv; out.insert(out.end(), (uint8_t *)&v, (uint8_t *)&v + 4); break; }
+      default: { float v = (float)fv; out.insert(out.end(), (uint8_t *)&v, (uint8_t *)&v + 4); break; }
+    }
+  }
+  return out;
+}
+
+struct S3Case {
+  GeomDef g;
+  EncCfg c;
+  std::string klass;
+};
+
+struct S3Dims {
+  std::vector<int> topos, atypes, dts, ncs, vss, poskinds, methods, speeds, preds, quants;
+};
+
+void add_s3(mc::Runner &R, const std::string &name, S3Dims D, bool quick, bool thorough) {
+  mc::Radix rx{2, (uint64_t)D.preds.size(), (uint64_t)D.speeds.size(), (uint64_t)D.methods.size(), (uint64_t)D.quants.size(),
+               (uint64_t)D.poskinds.size(), (uint64_t)D.vss.size(), (uint64_t)D.ncs.size(), (uint64_t)D.dts.size(),
+               (uint64_t)D.atypes.size(), 2, (uint64_t)D.topos.size()};
+  auto make = [=](uint64_t idx, S3Case *out) -> bool {
+    auto d = rx.decode(idx);
+    const bool entropy = d[0] == 0;
+    const int pred = kS3Preds[D.preds[d[1]]];
+    const int speed = D.speeds[d[2]];
+    const int method = D.methods[d[3]];
+    const int quant = D.quants[d[4]];
+    const gs::PosKind pk = (gs::PosKind)D.poskinds[d[5]];
+    const int vs = D.vss[d[6]];
+    const int nc = D.ncs[d[7]];
+    const DataType dt = kS3Types[D.dts[d[8]]];
+    const GeometryAttribute::Type at = kS3AttTypes[D.atypes[d[9]]];
+    const bool per_corner = d[10] == 1;
+    const Topo t = s3_topo(D.topos[d[11]]);
+    if (quant > 0 && dt != DT_FLOAT32) return false;  // quantization only applies to float attributes
+    GeomDef g;
+    g.is_mesh = true;
+    const int k = gs::num_ids(t);
+    std::vector<int> ev(k);
+    for (int i = 0; i < k; ++i) ev[i] = i;
+    AttDef pos = gs::position_att(k, pk, ev);
+    AttDef a;
+    a.type = at;
+    a.dt = dt;
+    a.nc = nc;
+    a.uid = 7;
+    a.per_corner = per_corner;
+    if (!per_corner) {
+      g.num_points = k;
+      g.faces = t;
+      for (int e = 0; e < k; ++e) a.entries.push_back(s3_value(dt, nc, e, vs));
+    } else {
+      g.num_points = 3 * (int)t.size();
+      for (size_t f = 0; f < t.size(); ++f) {
+        g.faces.push_back({(int)(3 * f), (int)(3 * f + 1), (int)(3 * f + 2)});
+        for (int c = 0; c < 3; ++c) {
+          pos.map.push_back(t[f][c]);
+          a.entries.push_back(s3_value(dt, nc, (int)(3 * f + c), vs));
+        }
+      }
+    }
+    g.atts = {pos, a};
+    EncCfg c = gs::mesh_cfg(method, speed);
+    c.builtin_entropy = entropy;
+    c.qbits = {pk == gs::POS_F32_Q ? 11 : 0, quant};
+    c.pred = {-100, pred};
+    out->g = g;
+    out->c = c;
+    // Input classes of known findings (DESIGN §6).
+    std::string kl;
+    const bool pos_int_or_q = pk == gs::POS_F32_Q || pk == gs::POS_I32;
+    const bool is_oct = at == GeometryAttribute::NORMAL && dt == DT_FLOAT32 && nc == 3 && quant > 0;
+    if ((dt == DT_INT32 || dt == DT_UINT32) && vs == 1) kl = "32-bit-attribute-with-type-extremes";
+    else if (pred == MESH_PREDICTION_GEOMETRIC_NORMAL && !is_oct) kl = "forced-geometric-normal-on-non-octahedral-attribute";
+    else if (pred == MESH_PREDICTION_TEX_COORDS_PORTABLE && nc != 2) kl = "forced-texcoords-portable-on-non-2-component-attribute";
+    else if ((pred == MESH_PREDICTION_TEX_COORDS_PORTABLE || pred == MESH_PREDICTION_GEOMETRIC_NORMAL) && !pos_int_or_q)
+      kl = "forced-mesh-prediction-with-unquantized-float-position";
+    out->klass = kl;
+    return true;
+  };
+  mc::Space s;
+  s.name = name;
+  s.size = rx.size();
+  s.quick = quick;
+  s.thorough = thorough;
+  s.run = [=](uint64_t idx, mc::Ctx &ctx) {
+    S3Case k;
+    if (!make(idx, &k)) {
+      ctx.count("s3_combination_not_applicable");
+      return;
+    }
+    auto r = rt::check_roundtrip(k.g, k.c, ctx, k.klass, !g_c09, g_c09);
+    if (r.decoded) ctx.nontrivial_unique();
+  };
+  s.klass = [=](uint64_t idx) {
+    S3Case k;
+    return make(idx, &k) ? k.klass : std::string();
+  };
+  s.describe = [=](uint64_t idx) {
+    S3Case k;
+    if (!make(idx, &k)) return std::string("not applicable (quantization of a non-float attribute)");
+    return text(k.g) + " " + text(k.c);
+  };
+  R.add(s);
+}
+
+// ------------------------------------------------------------------ S4 point clouds
+struct S4PosKind { DataType dt; int q; };
+const S4PosKind kS4Pos[] = {{DT_FLOAT32, 0}, {DT_FLOAT32, 11}, {DT_FLOAT32, 1}, {DT_INT32, 0}, {DT_UINT8, 0}, {DT_INT16, 0}, {DT_UINT32, 0}};
+// second attribute: 0 none, 1 COLOR u8x4, 2 GENERIC f32x1 q8, 3 GENERIC i16x2, 4 NORMAL f32x3 q6
+Bytes s4_pos_value(DataType dt, int sel) {
+  static const double V[3][3] = {{0, 0, 0}, {1, 2, 3}, {-4, 0.5, 100}};
+  Bytes out;
+  for (int c = 0; c < 3; ++c) {
+    const double v = V[sel][c];
+    switch (dt) {
+      case DT_FLOAT32: { float f = (float)v; out.insert(out.end(), (uint8_t *)&f, (uint8_t *)&f + 4); break; }
+      case DT_INT32: { int32_t f = (int32_t)(v * 1000); out.insert(out.end(), (uint8_t *)&f, (uint8_t *)&f + 4); break; }
+      case DT_UINT32: { uint32_t f = (uint32_t)std::fabs(v * 100000); out.insert(out.end(), (uint8_t *)&f, (uint8_t *)&f + 4); break; }
+      case DT_INT16: { int16_t f = (int16_t)(v * 300); out.insert(out.end(), (uint8_t *)&f, (uint8_t *)&f + 2); break; }
+      default: { uint8_t f = (uint8_t)std::fabs(v * 2); out.push_back(f); break; }
+    }
+  }
+  return out;
+}
+
+void add_s4(mc::Runner &R, const std::string &name, int max_n, std::vector<int> speeds, bool quick, bool thorough) {
+  // idx -> (n, assignment) via cumulative 3^n
+  std::vector<uint64_t> off;
+  uint64_t total = 0;
+  for (int n = 0; n <= max_n; ++n) {
+    off.push_back(total);
+    uint64_t p = 1;
+    for (int i = 0; i < n; ++i) p *= 3;
+    total += p;
+  }
+  mc::Radix rx{(uint64_t)speeds.size(), 3, 5, 7, total};
+  auto make = [=](uint64_t idx, GeomDef *g, EncCfg *c) {
+    auto d = rx.decode(idx);
+    int n = max_n;
+    while (off[n] > d[4]) --n;
+    uint64_t asg = d[4] - off[n];
+    const S4PosKind pk = kS4Pos[d[3]];
+    g->is_mesh = false;
+    g->num_points = n;
+    AttDef pos;
+    pos.type = GeometryAttribute::POSITION;
+    pos.dt = pk.dt;
+    pos.nc = 3;
+    pos.uid = 3;
+    AttDef b;
+    b.uid = 9;
+    const int second = (int)d[2];
+    switch (second) {
+      case 1: b.type = GeometryAttribute::COLOR; b.dt = DT_UINT8; b.nc = 4; b.normalized = true; break;
+      case 2: b.type = GeometryAttribute::GENERIC; b.dt = DT_FLOAT32; b.nc = 1; break;
+      case 3: b.type = GeometryAttribute::GENERIC; b.dt = DT_INT16; b.nc = 2; break;
+      case 4: b.type = GeometryAttribute::NORMAL; b.dt = DT_FLOAT32; b.nc = 3; break;
+      default: break;
+    }
+    for (int p = 0; p < n; ++p) {
+      const int sel = asg % 3;
+      asg /= 3;
+      pos.entries.push_back(s4_pos_value(pk.dt, sel));
+      // second attribute depends on the point index and the selection, so equal positions may carry different values
+      const int w = (sel + p) % 3;
+      switch (second) {
+        case 1: b.entries.push_back(bytes_of(std::vector<uint8_t>{(uint8_t)(w * 100), 255, 0, (uint8_t)(p * 60)})); break;
+        case 2: b.entries.push_back(bytes_of(std::vector<float>{w * 0.37f - 0.2f})); break;
+        case 3: b.entries.push_back(bytes_of(std::vector<int16_t>{(int16_t)(w * 1000 - 1000), (int16_t)(-p)})); break;
+        case 4: {
+          const float N[3][3] = {{0, 0, 1}, {0.6f, 0.8f, 0}, {-0.57735f, 0.57735f, -0.57735f}};
+          b.entries.push_back(bytes_of(std::vector<float>{N[w][0], N[w][1], N[w][2]}));
+          break;
+        }
+        default: break;
+      }
+    }
+    g->atts = {pos};
+    if (second) g->atts.push_back(b);
+    c->method = (int)d[1] == 2 ? -1 : (int)d[1];
+    c->speed_enc = c->speed_dec = speeds[d[0]];
+    c->qbits = {pk.q};
+    if (second == 2) c->qbits.push_back(8);
+    else if (second == 4) c->qbits.push_back(6);
+    else if (second) c->qbits.push_back(0);
+  };
+  mc::Space s;
+  s.name = name;
+  s.size = rx.size();
+  s.quick = quick;
+  s.thorough = thorough;
+  s.run = [=](uint64_t idx, mc::Ctx &ctx) {
+    GeomDef g;
+    EncCfg c;
+    make(idx, &g, &c);
+    auto r = rt::check_roundtrip(g, c, ctx, g.num_points == 0 ? "empty-point-cloud" : "", !g_c09, g_c09);
+    if (r.decoded && g.num_points > 1) ctx.nontrivial_unique();
+  };
+  s.klass = [=](uint64_t idx) {
+    GeomDef g;
+    EncCfg c;
+    make(idx, &g, &c);
+    return g.num_points == 0 ? std::string("empty-point-cloud") : std::string();
+  };
+  s.describe = [=](uint64_t idx) {
+    GeomDef g;
+    EncCfg c;
+    make(idx, &g, &c);
+    return text(g) + " " + text(c);
+  };
+  R.add(s);
+}
+
+// ------------------------------------------------------------------ S5 thresholds
+// One structured geometry per side of every size threshold visible in the
+// code: a triangle strip (or a point set) with exactly n points.
+struct S5Geom { std::string what; int n; bool mesh; };
+std::vector<S5Geom> s5_list(bool thorough) {
+  std::vector<S5Geom> v;
+  for (int n : {39, 40, 41, 63, 64, 65, 255, 256, 257, 999 + 2, 1000 + 2, 1001 + 2, 4095, 4096, 4097}) v.push_back({"strip", n, true});
+  for (int n : {63, 64, 65, 255, 256, 257, 4095, 4096, 4097}) v.push_back({"cloud", n, false});
+  if (thorough) {
+    for (int n : {65535, 65536, 65537}) v.push_back({"strip", n, true});
+    for (int n : {65535, 65536, 65537}) v.push_back({"cloud", n, false});
+  }
+  return v;
+}
+GeomDef s5_geom(const S5Geom &sg, int variant) {
+  GeomDef g;
+  g.is_mesh = sg.mesh;
+  g.num_points = sg.n;
+  AttDef pos;
+  pos.type = GeometryAttribute::POSITION;
+  pos.nc = 3;
+  pos.uid = 0;
+  pos.dt = variant == 0 ? DT_FLOAT32 : DT_INT32;
+  AttDef gen;
+  gen.type = GeometryAttribute::GENERIC;
+  gen.dt = DT_UINT16;
+  gen.nc = 1;
+  gen.uid = 5;
+  const int W = 64;
+  for (int i = 0; i < sg.n; ++i) {
+    const int x = i % W, y = i / W, z = (i * 7) % 5;
+    if (variant == 0) pos.entries.push_back(bytes_of(std::vector<float>{x * 0.5f, y * 0.25f, (float)z}));
+    else pos.entries.push_back(bytes_of(std::vector<int32_t>{x, y, z}));
+    gen.entries.push_back(bytes_of(std::vector<uint16_t>{(uint16_t)(i % 65536)}));  // n distinct symbols
+  }
+  g.atts = {pos, gen};
+  if (sg.mesh)
+    for (int i = 0; i + 2 < sg.n; ++i) {
+      if (i % 2 == 0) g.faces.push_back({i, i + 1, i + 2});
+      else g.faces.push_back({i + 1, i, i + 2});
+    }
+  return g;
+}
+void add_s5(mc::Runner &R, const std::string &name, bool thorough_list, bool quick, bool thorough) {
+  const std::vector<S5Geom> L = s5_list(thorough_list);
+  // cfg: method kinds {0,1,2,3} (cloud: seq/kd) x speed {0,1,5,10} x gen-pred {auto, none}
+  mc::Radix rx{2, 4, 4, 2, (uint64_t)L.size()};
+  auto make = [=](uint64_t idx, GeomDef *g, EncCfg *c) {
+    auto d = rx.decode(idx);
+    const S5Geom &sg = L[d[4]];
+    *g = s5_geom(sg, (int)d[3]);
+    static const int sp[4] = {0, 1, 5, 10};
+    if (sg.mesh) *c = gs::mesh_cfg((int)d[2], sp[d[1]]);
+    else {
+      c->method = (int)d[2] % 2;
+      c->speed_enc = c->speed_dec = sp[d[1]];
+    }
+    c->qbits = {d[3] == 0 ? 14 : 0, 0};
+    c->pred = {-100, d[0] ? (int)PREDICTION_NONE : -100};
+  };
+  mc::Space s;
+  s.name = name;
+  s.size = rx.size();
+  s.quick = quick;
+  s.thorough = thorough;
+  s.timeout_s = 120;
+  s.run = [=](uint64_t idx, mc::Ctx &ctx) {
+    GeomDef g;
+    EncCfg c;
+    make(idx, &g, &c);
+    auto r = rt::check_roundtrip(g, c, ctx, "", !g_c09, g_c09);
+    if (r.decoded) ctx.nontrivial_unique();
+  };
+  s.describe = [=](uint64_t idx) {
+    GeomDef g;
+    EncCfg c;
+    make(idx, &g, &c);
+    auto d = rx.decode(idx);
+    return L[d[4]].what + " with " + std::to_string(L[d[4]].n) + " points, position " + (d[3] == 0 ? "f32 q14" : "i32") +
+           ", u16 attribute with one distinct value per point; " + text(c);
+  };
+  R.add(s);
+}
+
 }  // namespace
 
 int main(int argc, char **argv) {
@@ -183,6 +541,22 @@ int main(int argc, char **argv) {
     add_s1(R, "asan_S1_F3ids4", &g_topos_f3i4, {0}, {1, 2}, false, false, true);
     add_s2(R, "asan_S2_F2_quick", &g_s2_small, {1}, {0}, {2}, false, true, false, true);
     add_s2(R, "asan_S2_F2", &g_s2_small, {1, 2}, {0, 1, 2}, {0, 2, 3}, false, false, true);
+  }
+  {
+    S3Dims q;  // quick
+    q.topos = {1, 3}; q.atypes = {0, 1, 2}; q.dts = {0, 1, 2, 3, 4, 5, 6}; q.ncs = {1, 2, 3, 4}; q.vss = {0, 1};
+    q.poskinds = {0, 1}; q.methods = {0, 2}; q.speeds = {0, 10}; q.preds = {0, 1, 2, 3, 4, 5, 6, 7}; q.quants = {0, 8};
+    S3Dims t;  // thorough
+    t.topos = {0, 1, 2, 3}; t.atypes = {0, 1, 2, 3}; t.dts = {0, 1, 2, 3, 4, 5, 6}; t.ncs = {1, 2, 3, 4, 5}; t.vss = {0, 1, 2, 3};
+    t.poskinds = {0, 1, 2}; t.methods = {0, 2, 3}; t.speeds = {0, 5, 10}; t.preds = {0, 1, 2, 3, 4, 5, 6, 7}; t.quants = {0, 8, 30};
+    if (asan) {
+      add_s3(R, "asan_S3_quick", q, true, false);
+      add_s3(R, "asan_S3", t, false, true);
+      add_s4(R, "asan_S4_N3", 3, {0, 4, 10}, true, false);
+      add_s4(R, "asan_S4_N4", 4, {0, 1, 2, 3, 4, 5, 6, 7, 8, 9, 10}, false, true);
+      add_s5(R, "asan_S5", false, true, false);
+      add_s5(R, "asan_S5_large", true, false, true);
+    }
   }
   R.require("encode_ok", 1000);
   R.require("decode_ok", 1000);
